@@ -151,7 +151,13 @@ func OpDiv(x Value, y Value) Value {
 }
 
 func OpMod(x Value, y Value) Value {
-	return IntVal(ToInt(x) % ToInt(y))
+	yi := ToInt(y)
+	if yi == 0 {
+		// otherwise a Go run-time panic (integer divide by zero),
+		// also when folding constants
+		panic("modulus by zero")
+	}
+	return IntVal(ToInt(x) % yi)
 }
 
 func OpLeftShift(x Value, y Value) Value {
